@@ -17,7 +17,8 @@ use crate::gen::expr::Cfg;
 use crate::known;
 use crate::props::c03::{capped, Capped};
 use crate::props::common::gen_case;
-use crate::runner::{guard, Case, SubCheck};
+use crate::runner::{guard, Case, SubCheck, SubOutcome, Tier};
+use crate::util::{par_enumerate, Acc};
 
 pub fn offset_at(tz: Tz, utc: NaiveDateTime) -> i64 {
     i64::from(tz.offset_from_utc_datetime(&utc).fix().local_minus_utc())
@@ -320,25 +321,118 @@ fn zones_text(text: &str, case: &mut Case) -> Result<(), String> {
     let [expr, zone, instant] = parts.as_slice() else { return Err("bad replay text".into()) };
     let tz: Tz = zone.trim().parse().map_err(|_| "bad zone")?;
     let utc = NaiveDateTime::parse_from_str(instant.trim(), "%Y-%m-%dT%H:%M:%S").map_err(|e| e.to_string())?;
+    check_at(expr, tz, utc)
+}
+
+/// State, next_change and the intervals of the next hours of `expr` in zone `tz` at the UTC
+/// instant `utc`, against the evaluation without location and the independent mapping.
+fn check_at(expr: &str, tz: Tz, utc: NaiveDateTime) -> Result<(), String> {
     let plain = OpeningHours::parse(expr).map_err(|e| e.to_string())?;
     let tz_oh = plain.clone().with_context(Context::default().with_locale(TzLocation::new(tz)));
     let inst = tz.from_utc_datetime(&utc);
     let naive = inst.naive_local();
-    let (a, b) = (tz_oh.state(inst), plain.state(naive));
+    let (a, b) = (guard(|| tz_oh.state(inst)).map_err(|p| format!("`{expr}` in {tz}: state({inst}) panicked: {p}"))?, plain.state(naive));
     if a != b {
         return Err(format!("`{expr}` in {tz}: state({inst}) = {a:?} but the expression is {b:?} at the wall-clock time {naive}"));
     }
-    match (tz_oh.next_change(inst), plain.next_change(naive)) {
+    match (guard(|| tz_oh.next_change(inst)).map_err(|p| format!("`{expr}` in {tz}: next_change({inst}) panicked: {p}"))?, plain.next_change(naive)) {
         (None, None) => {}
         (Some(got), Some(n)) => {
             let exp = oracle_map(tz, n)?;
             if got != exp {
                 return Err(format!("`{expr}` in {tz}: next_change({inst}) = {got} but the naive result {n} maps to {exp}"));
             }
+            if got <= inst {
+                return Err(format!("`{expr}` in {tz}: next_change({inst}) = {got} is not after the query instant"));
+            }
         }
         (x, y) => return Err(format!("`{expr}` in {tz}: next_change({inst}) = {x:?}, without location {y:?}")),
     }
+    let to = inst + Duration::hours(9);
+    let naive_to = to.naive_local();
+    let got: Vec<_> = guard(|| tz_oh.iter_range(inst, to).take(20).collect()).map_err(|p| format!("`{expr}` in {tz}: iter_range({inst}, {to}) panicked: {p}"))?;
+    let exp: Vec<_> = plain.iter_range(naive, naive_to).take(20).collect();
+    if got.len() != exp.len() {
+        return Err(format!("`{expr}` in {tz}: iter_range({inst}, {to}) yields {} intervals, without location {} (wall-clock window {naive}..{naive_to})", got.len(), exp.len()));
+    }
+    let mut last_end: Option<DateTime<Tz>> = None;
+    for (gi, ei) in got.iter().zip(&exp) {
+        for (g, e, what) in [(gi.range.start, ei.range.start, "start"), (gi.range.end, ei.range.end, "end")] {
+            let m = oracle_map(tz, e)?;
+            if g != m {
+                return Err(format!("`{expr}` in {tz}: {what} of an interval of iter_range({inst}, {to}) is {g} but the naive result {e} maps to {m}"));
+            }
+        }
+        if gi.kind != ei.kind || gi.range.start > gi.range.end || last_end.is_some_and(|l| gi.range.start < l) {
+            return Err(format!("`{expr}` in {tz}: iter_range({inst}, {to}) interval {:?} {:?}: wrong kind (without location {:?}) or going backwards in absolute time (previous end {last_end:?})", gi.range, gi.kind, ei.kind));
+        }
+        last_end = Some(gi.range.end);
+    }
     Ok(())
+}
+
+/// All offset transitions of a zone between 1900 and 2046 (UTC instants): coarse scan with 6 h
+/// steps, then every hit is re-scanned at 5 min steps over +-36 h, which finds the second change
+/// of the zones that changed twice within a day.
+fn all_transitions(tz: Tz) -> Vec<NaiveDateTime> {
+    let a = NaiveDate::from_ymd_opt(1900, 1, 1).unwrap().and_hms_opt(0, 0, 0).unwrap();
+    let b = NaiveDate::from_ymd_opt(2046, 1, 1).unwrap().and_hms_opt(0, 0, 0).unwrap();
+    let mut out: Vec<NaiveDateTime> = Vec::new();
+    for t in transitions_step(tz, a, b, Duration::hours(6)) {
+        for u in transitions_near(tz, t) {
+            if !out.contains(&u) {
+                out.push(u);
+            }
+        }
+    }
+    out.sort();
+    out
+}
+
+/// Exhaustive over the tz database: every gap and fold of every zone.
+fn check_zone_transitions(index: u64, acc: &mut Acc) {
+    let tz = chrono_tz::TZ_VARIANTS[index as usize];
+    let ts = all_transitions(tz);
+    for (i, t) in ts.iter().enumerate() {
+        let before = offset_at(tz, *t - Duration::seconds(1));
+        let after = offset_at(tz, *t);
+        let (lo, hi) = (*t + Duration::seconds(before.min(after)), *t + Duration::seconds(before.max(after)));
+        // a wall-clock minute inside the skipped / repeated stretch (its middle, or its first
+        // whole minute when it is shorter than two minutes)
+        let mid = lo + Duration::seconds((hi - lo).num_seconds() / 2);
+        let mid = mid - Duration::seconds(i64::from(mid.second()));
+        let inside = if mid >= lo && mid < hi { mid } else { lo + Duration::seconds(60 - i64::from(lo.second()) % 60) };
+        let close = i > 0 && *t - ts[i - 1] < Duration::hours(30) || i + 1 < ts.len() && ts[i + 1] - *t < Duration::hours(30);
+        let exprs = [
+            format!("{}-{}", hhmm(inside), hhmm(inside + Duration::hours(7))),
+            format!("00:00-{} open, {}-{} unknown", hhmm(inside), hhmm(inside), hhmm(inside + Duration::minutes(30))),
+        ];
+        for expr in &exprs {
+            for delta in [-70i64, -10, 0, 10] {
+                let utc = *t + Duration::minutes(delta);
+                acc.case(true);
+                if let Err(m) = check_at(expr, tz, utc) {
+                    return acc.fail("zones", format!("{expr} @ {tz} @ {}", utc.format("%Y-%m-%dT%H:%M:%S")), m);
+                }
+            }
+        }
+        acc.label(if after > before { "gap" } else { "fold" });
+        if close {
+            acc.label("another_transition_within_30_hours");
+        }
+        if i % 97 == 0 {
+            acc.sample(|| format!("{tz}: transition at {t} UTC ({before} s -> {after} s), expression `{}`", exprs[0]));
+        }
+    }
+}
+
+fn extra(_tier: Tier, _seed: u64) -> Vec<SubOutcome> {
+    vec![par_enumerate(
+        "all_transitions",
+        "exhaustive over the tz database: every offset transition 1900..2045 of each of the 596 zones (6 h scan, re-scanned at 5 min steps over +-36 h around every hit) x 2 expressions with a state change on a wall-clock minute inside the skipped (gap) or repeated (fold) stretch x 4 instants (70 and 10 min before, at, 10 min after the transition): state, next_change and the intervals of the next 9 hours against the evaluation without location and the independent local->instant mapping; every case is non-trivial (a gap or a fold is involved)",
+        chrono_tz::TZ_VARIANTS.len() as u64,
+        check_zone_transitions,
+    )]
 }
 
 pub fn property() -> Property {
@@ -353,7 +447,7 @@ pub fn property() -> Property {
             cases_thorough: 600_000,
             max_choices: 360,
         }],
-        extra: None,
+        extra: Some(extra),
         assumptions: vec![
             "chrono-tz's offset lookup (offset_from_utc_datetime) is trusted; the local->instant mapping and the transition finder are harness code",
             "the NoLocation evaluation is the reference side of the differential (its own correctness: C01-C03)",
